@@ -170,13 +170,16 @@ func (u *Unreliable) receive(pkt *frame) error {
 		return ErrBadTubeState
 	}
 
+	// A FIN carries no message, only end-of-stream: queueing its empty payload
+	// would hand the reader a datagram that was never written
+	if pkt.flags.FIN {
+		u.recv.Close()
+		return nil
+	}
+
 	select {
 	case u.recv.C <- pkt.data:
 	default:
-		return nil
-	}
-	if pkt.flags.FIN {
-		u.recv.Close()
 	}
 	return nil
 }
